@@ -32,13 +32,20 @@ fn run_partition(ev: &mut Ev, st: &Stream, cuts: &[usize]) -> CaseResult {
         Some((j, _)) => (*j, Some(st.starts[*j + 1])),
         None => (st.entries.len(), None),
     };
-    let mut ss = SummaryStream::new();
+    // three ways to the stream object: new(), default(), and a clone taken
+    // half way through the writes (the clone carries on, the original is dropped)
+    let route = (total + cuts.len()) % 3;
+    ev.count(["stream-route/new", "stream-route/default", "stream-route/clone-midway"][route]);
+    let mut ss = if route == 1 { SummaryStream::default() } else { SummaryStream::new() };
     let mut delivered;
     let mut seen = 0usize;
     let mut failed = false;
     ev.max("max/writes_per_partition", chunks.len() as u64);
     for (w, &(lo, hi)) in chunks.iter().enumerate() {
         let chunk = &st.bytes[lo..hi];
+        if route == 2 && w == chunks.len() / 2 {
+            ss = ss.clone();
+        }
         let res = ss.write(chunk);
         ev.eval();
         ev.count("writes");
@@ -78,6 +85,13 @@ fn run_partition(ev: &mut Ev, st: &Stream, cuts: &[usize]) -> CaseResult {
                         e.kind()
                     )
                     .into());
+                }
+                // a caller of write() only has the io::Error's text: when the
+                // malformation is a missing variable, no other variable may be named
+                if let Some((_, gs::Fault::Remove(v))) = &st.bad {
+                    ev.eval();
+                    ev.count("error-text/missing-variable");
+                    crate::mon::c07::text_names_only(&e.to_string(), *v, false)?;
                 }
                 failed = true;
             }
